@@ -746,7 +746,7 @@ func TestVerifC34CoSignOnlyValidated(t *testing.T) {
 
 	rapid.Check(t, func(t *rapid.T) {
 		// --- script
-		nCalls := rapid.SampledFrom([]int{1, 1, 1, 1, 2, 2, 2, 2, 3, 0}).Draw(t, "nCalls")
+		nCalls := rapid.SampledFrom([]int{1, 1, 1, 1, 1, 1, 1, 2, 2, 2, 2, 2, 2, 2, 3, 3, 0}).Draw(t, "nCalls")
 		var calls []vc34Call
 		for i := 0; i < nCalls; i++ {
 			calls = append(calls, e.genCall(t, i, i > 0 && calls[0].key == createV2))
